@@ -261,6 +261,34 @@ def check_set_backend():
             mido.get_input_names()
             if mido.backend is not b2 or log[-1] != 'devices:PULSE':
                 return f'set_backend(Backend("fk", api="PULSE")) after use of fk/ALSA: last record {log[-1]}'
+            # choosing a backend of the same name and API again, as another object with another use_environ, after the
+            # current one has been used: the top-level functions must reach the NEW object (and its use_environ)
+            import os
+            old_env = os.environ.get('MIDO_DEFAULT_INPUT')
+            os.environ['MIDO_DEFAULT_INPUT'] = 'envport'
+            try:
+                mido.set_backend('fk/ALSA')
+                mido.open_input()
+                if log[-1] != 'ctor:Input:envport:ALSA':
+                    return f'open_input() with MIDO_DEFAULT_INPUT=envport recorded {log[-1]}'
+                for b3 in (Backend('fk/ALSA', use_environ=False), Backend('fk', api='ALSA', use_environ=False, load=True)):
+                    mido.set_backend(b3)
+                    mido.open_input()
+                    if mido.backend is not b3 or mido.open_input.__self__ is not b3 or mido.get_output_names.__self__ is not b3:
+                        return ('history [set_backend("fk/ALSA"), use, set_backend(Backend("fk/ALSA", use_environ=False))]: the '
+                                'top-level functions are still bound to the earlier backend object')
+                    if log[-1] == 'ctor:Input:envport:ALSA':
+                        return ('after set_backend(Backend("fk/ALSA", use_environ=False)) open_input() still takes MIDO_DEFAULT_INPUT: '
+                                f'{log[-1]}')
+                    mido.set_backend('fk/ALSA')
+                    mido.open_input()
+                    if log[-1] != 'ctor:Input:envport:ALSA':
+                        return f'back to set_backend("fk/ALSA") (use_environ default): open_input() recorded {log[-1]}'
+            finally:
+                if old_env is None:
+                    os.environ.pop('MIDO_DEFAULT_INPUT', None)
+                else:
+                    os.environ['MIDO_DEFAULT_INPUT'] = old_env
         finally:
             importlib.import_module = real_import
         return None
